@@ -1,4 +1,5 @@
 import Lean.Meta.Tactic.Simp.RegisterCommand
+import Lean.Elab.Command
 /-! C01, translator tie: the simp sets that `gossa/ssagen` tags the regenerated definitions with, so that the proof
     script of `Props/C01Gen.lean` can unfold them without naming them (a helper function that a refactoring of the Go
     code introduces is unfolded like any other). -/
@@ -8,3 +9,13 @@ register_simp_attr gen_def
 
 /-- every package-level constant of `Generated/SSA_Num.lean` (unfolded after the functions) -/
 register_simp_attr gen_const
+
+open Lean Elab Command in
+/-- `when_translated Gen.X in <command>`: the command (a theorem about the regenerated definition `Gen.X`) is elaborated
+    only when the translator produced `Gen.X` in this run.  A function that a change of the Go code moves outside the
+    translated fragment (an implementation through `math/big`, say) has no tie any more — `./check C03` records that as
+    reduced coverage; the differential run still covers the function — instead of a proof that no longer checks. -/
+elab "when_translated " id:ident " in " cmd:command : command => do
+  if (← getEnv).contains id.getId then elabCommand cmd
+  else logInfo m!"{id.getId} is outside the translated fragment: no tie for it in this run"
+
